@@ -48,6 +48,24 @@ static int visit(void * e, void * p)
     vis_n++;
     return (vis_stop > 0 && vis_n == vis_stop) ? vsign * vis_stop : 0;
 }
+/* foreach visitor that changes the lists: takes the element it is shown off the traversed list with
+ * pop_front (and notes whether that returned the element), appends it to another list, answers like
+ * visit().  Its context is a private structure: verified by address, a magic member and the usual cookie inside. */
+#define FM_MAGIC 0x5eedf00dUL
+struct fmove_ctx { unsigned long magic; void * cookie; struct cstl_slist * from, * to; int bad; };
+static struct fmove_ctx * fm_expected;      /* the context handed to the running foreach */
+static int visit_move(void * e, void * p)
+{
+    struct fmove_ctx * c = p;
+    h_check_priv2(p, fm_expected);          /* compared before it is dereferenced */
+    if (c->magic != FM_MAGIC) h_check_priv(NULL);
+    h_check_priv(c->cookie);
+    if (vis_n < 4 * MAXE) vis_log[vis_n] = idof(e);
+    vis_n++;
+    if (cstl_slist_pop_front(c->from) != e) c->bad++;
+    cstl_slist_push_back(c->to, e);
+    return (vis_stop > 0 && vis_n == vis_stop) ? vsign * vis_stop : 0;
+}
 static void clr(void * e, void * p)
 {
     struct elem * x = e; (void)p;
@@ -119,6 +137,17 @@ static void run_case(const struct h_case * c)
             vis_n = 0; vis_stop = b;
             r = cstl_slist_foreach(&lists[a], visit, H_COOKIE);
             printf("ok %d", vsign * r);
+            for (k = 0; k < vis_n && k < 4 * MAXE; k++) printf(" %d", vis_log[k]);
+        }
+        else if (h_weq(l, 0, "fmove")) {
+            struct fmove_ctx fc;
+            int r;
+            if (b < 0 || b >= nlists || a == b) { printf("precond\n"); return; }
+            fc.magic = FM_MAGIC; fc.cookie = H_COOKIE; fc.from = &lists[a]; fc.to = &lists[b]; fc.bad = 0;
+            vis_n = 0; vis_stop = d; fm_expected = &fc;
+            r = cstl_slist_foreach(&lists[a], visit_move, &fc);
+            fm_expected = NULL;
+            printf("ok %d %d", vsign * r, fc.bad);
             for (k = 0; k < vis_n && k < 4 * MAXE; k++) printf(" %d", vis_log[k]);
         }
         else if (h_weq(l, 0, "clear")) {
